@@ -117,6 +117,22 @@ def bounded(tier, seed):
                     return 'level list %r expected %r' % (zs.tolist(), levels)
                 return None
             run.case('C20:arlpackedbit reads a reference-encoded file', (nt, step_h, nz, ny, nx), t_file)
+
+            def t_write(path=path, raw=raw):
+                from PseudoNetCDF.noaafiles._arl import writearlpackedbit
+                f = arlpackedbit(path)
+                out = path + '.rewritten'
+                writearlpackedbit(f, out)
+                b = open(out, 'rb').read()
+                if len(b) != len(raw):
+                    return 'writer output has %d bytes, the source file %d' % (len(b), len(raw))
+                g = arlpackedbit(out)
+                for k in ('PRSS', 'TEMP', 'UWND'):
+                    if not np.allclose(np.asarray(g.variables[k][:]), np.asarray(f.variables[k][:]), rtol=0, atol=2 * 2.0 ** -7 * np.abs(np.asarray(f.variables[k][:])).max()):
+                        return 'field %s changed by write/read' % k
+                return None
+            if ci == 0:
+                run.case('C20:writearlpackedbit writes a readable file', (nt, step_h, nz, ny, nx), t_write)
     finally:
         shutil.rmtree(tmp, ignore_errors=True)
     # level / variable definition text
